@@ -41,6 +41,21 @@ def cases(draw):
                       "index": draw(st.integers(0, 3)), "interval": draw(st.one_of(st.sampled_from([0.95, 0.5]), st.floats(0.02, 0.98))),
                       "samples_u": draw(st.one_of(st.none(), st.floats(0, 2))), "marginal": draw(st.sampled_from([False, False, True]))})
     cfg["reads"] = reads
+    # second phase on the same (by now already read-out) sampler: more steps, a tempering exchange of the last point, a save / load,
+    # then the same read-outs again
+    ops2 = []
+    for _ in range(draw(st.integers(0, 4))):
+        kind = draw(st.sampled_from(["advance", "step", "reload"] + ([] if ens else ["exchange", "exchange"])))
+        if kind == "advance":
+            ops2.append({"op": "advance", "m": draw(st.integers(1, 5))})
+        elif kind == "step" and not ens:
+            ops2.append({"op": "step", "m": draw(st.integers(1, 4))})
+        elif kind == "exchange":
+            ops2.append({"op": "exchange", "u": [draw(st.floats(-1.5, 1.5)) for _ in range(cfg["d"])]})
+        elif kind == "reload":
+            ops2.append({"op": "reload"})
+    cfg["ops2"] = ops2
+    cfg["reads2"] = draw(st.sampled_from(["same", "same", "burn0"])) if ops2 else None
     return cfg
 
 
@@ -68,7 +83,65 @@ def body(case, ctx):
     else:
         model_s, model_p = full(ch)
         prev_rows = {key(model_s[-1])}
-    for op in cfg["ops"]:
+    state = {"ch": ch, "s": model_s, "p": model_p, "prev": prev_rows}
+    for phase, ops in (("first", cfg["ops"]), ("second", cfg.get("ops2") or [])):
+        if phase == "second":
+            if state["s"].shape[0] == 0:
+                raise Inconclusive("nothing stored")
+            read_outs(cfg, state["ch"], state["s"], state["p"], cfg["reads"], ctx)
+            if not ops:
+                break
+        drive(cfg, state, ops, tgt, info, nw, ctx)
+    else:
+        reads2 = cfg["reads"] if cfg.get("reads2") != "burn0" else [dict(r, burn_u=0.0, burn_edge=None) for r in cfg["reads"]]
+        read_outs(cfg, state["ch"], state["s"], state["p"], reads2, ctx)
+        ctx.event("second-phase")
+    ctx.event("cls=" + cls)
+
+
+def drive(cfg, state, ops, tgt, info, nw, ctx):
+    cls, T, d = cfg["cls"], cfg["T"], cfg["d"]
+    ch, model_s, model_p, prev_rows = state["ch"], state["s"], state["p"], state["prev"]
+    for op in ops:
+        if op["op"] in ("exchange", "reload"):
+            if model_s.shape[0] == 0:
+                continue
+            if op["op"] == "exchange":
+                # exactly what the tempering worker does with a received position: the last entry is replaced
+                c, sc = S.centre_scale(cfg)
+                pos = c + np.array(op["u"]) * sc
+                box = info.get("box")
+                if box is not None:
+                    pos = np.clip(pos, box[0], box[1])
+                for i, kind in enumerate(cfg.get("limits", []) if cls in ("gibbs", "metropolis") else []):
+                    if kind == "nonneg":
+                        pos[i] = abs(pos[i])
+                    elif kind == "bounded":
+                        lo, hi = S.gibbs_interval(cfg, i)
+                        pos[i] = min(max(pos[i], lo), hi)
+                ch.replace_last(pos.copy())
+                ch.probs[-1] = tgt.logp(pos) * ch.inv_temp
+                model_s, model_p = model_s.copy(), model_p.copy()
+                model_s[-1], model_p[-1] = pos, tgt.logp(pos) / T
+                ctx.event("exchange")
+            else:
+                import os
+                import tempfile
+                from props.c09_save_load import load as load_sampler
+                fd, path = tempfile.mkstemp(suffix=".npz")
+                os.close(fd)
+                try:
+                    ch.save(path)
+                    ch = load_sampler(cfg, path, tgt)
+                finally:
+                    os.remove(path)
+                ctx.event("reloaded")
+            s, p = full(ch)
+            if not (np.array_equal(s, model_s) and np.allclose(p, model_p, rtol=1e-12, atol=0)):
+                raise Violation(f"log-rewritten:{cls}", f"{op}: the full chain read-out is not the log with its last entry exchanged / the saved log")
+            model_p = p
+            prev_rows = {key(r) for r in s[-nw:]}
+            continue
         n_new = op["m"] * (nw if cls == "ensemble" else 1)
         mark = len(tgt.trace)
         with warnings.catch_warnings():
@@ -95,12 +168,15 @@ def body(case, ctx):
                 raise Violation(f"log-prob:{cls}", f"{op}: stored log-probability {pr!r} vs {want!r} for row {r}")
         model_s, model_p = s, p
         prev_rows = {key(r) for r in (s[-nw:] if s.shape[0] else info["positions"])}
+    state.update(ch=ch, s=model_s, p=model_p, prev=prev_rows)
+
+
+def read_outs(cfg, ch, model_s, model_p, reads, ctx):
+    cls, d = cfg["cls"], cfg["d"]
     n = model_s.shape[0]
-    if n == 0:
-        raise Inconclusive("nothing stored")
     # ---- read-outs
     retained_classes = set()
-    for rd in cfg["reads"]:
+    for rd in reads:
         burn = int(rd["burn_u"] * n)
         if rd["burn_edge"] is not None:
             burn = max(n - 1 + rd["burn_edge"], 0) if rd["burn_edge"] <= 0 else n - 1 + rd["burn_edge"]
@@ -170,7 +246,6 @@ def body(case, ctx):
                     raise Violation(f"get_interval-count:{itag}", f"samples={samples}: only {iv_p.size} rows returned although the top fraction has {top_p.size}")
             ctx.event("interval:" + ("count" if samples is not None else "all"))
         ctx.nontrivial((burn > 0 and thin > 1 and k >= 2) or k <= 1)
-    ctx.event("cls=" + cls)
     for c in retained_classes:
         ctx.event("retained=" + c)
 
